@@ -60,7 +60,9 @@ Bad(o) ==
           THEN {"returns_a_root_for_a_valid_bracket"} ELSE {})
   \cup (IF ParamsValid(o) /\ OppositeSigns(o) /\ o.ret = "ok"
           THEN (IF ~(FIsFinite(o.x) /\ FLe(Lo(o), o.x) /\ FLe(o.x, Hi(o))) THEN {"result_inside_the_interval"} ELSE {})
-               \cup (IF FIsFinite(o.x) /\ ~(FLe(RootDist(o.f, o.x), Width(o)) \/ (o.solver = "brent" /\ FLt(FAbs(o.fx), o.tol)))
+               \* a point where the function *as evaluated* is exactly zero is a root of the function under test
+               \* (tiny amplitudes and flat roots underflow to 0 on a whole neighbourhood of the real root)
+               \cup (IF FIsFinite(o.x) /\ ~(FLe(RootDist(o.f, o.x), Width(o)) \/ FEq(o.fx, F0) \/ (o.solver = "brent" /\ FLt(FAbs(o.fx), o.tol)))
                        THEN {"sign_change_within_tolerance_of_result"} ELSE {})
           ELSE {})
 =============================================================================
